@@ -13,6 +13,9 @@ def instances(tier):
         L.append(Inst("span-a%d-w%d" % (nb, w), "C12/span.c", {"NB": nb, "W": w}, link=[], unwind=3 * rw + 3 + (w if nb > 1 else 3), timeout=900,
                       checks=["--bounds-check", "--pointer-check"],
                       desc={"what": "one sample row of rasterize_edges: abutting spans tile exactly, empty spans add nothing, only the addressed row changes"}))
+    for opn, op, z in (("OVER", 3, 1), ("ADD", 12, 1), ("SRC", 1, 0), ("IN", 5, 0)):
+        L.append(Inst("trap-extents-" + opn, "C12/extents.c", {"OP": op, "ZERO_SRC_NO_EFFECT": z}, link=[], unwind=6, timeout=600,
+                      desc={"what": "get_trap_extents (mask box of composite_trapezoids) == pixel bounding box of the valid trapezoids in trapezoid space / whole destination; two symbolic trapezoids"}))
     for n in ((2,) if tier == "quick" else (2, 3)):
         L.append(Inst("rows-joint-vs-single-a8-n%d" % n, "C12/rows.c", {"W": 8, "NROWS": n}, link=[], unwind=12, timeout=1800, checks=["--bounds-check", "--pointer-check"],
                       desc={"what": "rasterize_edges_8 over several sample rows (span-fill optimisation active) == the same rows rasterised one at a time; edge positions and per-row steps symbolic"}))
